@@ -708,6 +708,166 @@ class C07(Plan):
                              "faults.cmp.propagated", "faults.alloc.aborted-via-alloc-error"])
 
 
+
+class C14(Plan):
+    assumptions = COMMON_ASSUME + [
+        "same-allocation licence honoured: == may be true (and != false) for handles to one allocation even if the value is not equal to itself",
+        "for header-slices whose recorded lengths differ while header and slice are equal only the consistency laws are required (no particular direction of the order)",
+        "ArcUnion {:?}: weakest reading (a function of variant and value that contains the value's {:?} and no address)",
+    ]
+
+    def jobs(self, tier, seed):
+        p = ("C14",)
+        j = []
+        if tier == "quick":
+            j += simple_jobs("dbg", ["cmp", "seed=%d" % seed, "extra=80"], p)
+            j += simple_jobs("rel", ["cmp", "seed=%d" % (seed + 1), "extra=80"], p)
+            j += simple_jobs("nostd", ["cmp", "seed=%d" % (seed + 2), "extra=40"], p)
+            j += simple_jobs("asan", ["cmp", "seed=%d" % (seed + 3), "extra=30"], p)
+            j += [Job("miri", ["cmp", "seed=%d" % (seed * 100 + k), "limit=5", "extra=3", "class=%s" % c], san_props=p, crash_props=p, miri_seed=seed * 4096 + k,
+                      tb=(k % 3 == 2), timeout=1800) for k, c in enumerate(["total", "partial", "eq", "total", "partial", "eq"])]
+            j += thin_jobs("dbg", 300, 220, seed, (), (), nshards=2) + hist_jobs("dbg", 300, 220, seed, (), (), nshards=2)
+        else:
+            for k, m in enumerate(("dbg", "rel", "off", "nostd")):
+                j += [Job(m, ["cmp", "seed=%d" % (seed * 1000 + k * 50 + q), "extra=400"], san_props=p, crash_props=p) for q in range(8)]
+            j += simple_jobs("asan", ["cmp", "seed=%d" % (seed + 3), "extra=200"], p)
+            j += [Job("miri", ["cmp", "seed=%d" % (seed * 100 + k), "limit=8", "extra=4", "class=%s" % ["total", "partial", "eq"][k % 3]], san_props=p, crash_props=p,
+                      miri_seed=seed * 4096 + k, tb=(k % 3 == 2), timeout=3000) for k in range(48)]
+            j += thin_jobs("dbg", 20000, 300, seed, (), (), nshards=8) + hist_jobs("dbg", 20000, 300, seed, (), (), nshards=8)
+        return j
+
+    def coverage(self, counts, sets, samples, other, results):
+        return dict(
+            evaluations=counts.get("cmp.pairs", 0),
+            distinct_nontrivial=len(sets.get("cmp_values", ())),
+            rule="one evaluation = one ordered pair of values compared through every applicable handle type (Arc<HeaderSlice<H,[T]>>, the same with a recorded length, ThinArc, protected Arc, "
+                 "Arc<[T]>, Arc<T>, OffsetArc, ArcBorrow, ArcUnion, Arc<str>) with == != < <= > >= partial_cmp cmp hash {:?} {} checked against the same operation on the plain values and "
+                 "against the consistency laws, operands in distinct allocations and in the same allocation; domain D = headers {a,b,c} x slices over {a,b,c} of length <= 3 x recorded "
+                 "length {true,true+1} (240 values, all 57600 ordered pairs) per element class {u8, f64 with NaN/-0.0, equality-only}, plus seeded larger values; HashMap/BTreeMap keyed by "
+                 "Arc<T> probed with &T. distinct_nontrivial = distinct (element class, value) operands",
+            samples=samples,
+            exhaustive=bool(other.get("exhaustive_domain")),
+            same_allocation_pairs=counts.get("cmp.pairs.same-allocation", 0),
+            hash_checks=counts.get("cmp.hash", 0),
+            map_probes=counts.get("cmp.map-probes", 0),
+            history_compare_ops={k: v for k, v in counts.items() if k.startswith("op.compare") or k.startswith("thin.compare")},
+        )
+
+    def required(self, counts, sets, other):
+        return need(counts, ["cmp.pairs", "cmp.hash", "cmp.map-probes", "cmp.pairs.same-allocation"])
+
+
+class C15(Plan):
+    assumptions = COMMON_ASSUME + [
+        "elements written into a handle that is dropped before assume_init are, by contract, not destroyed: the check requires them to stay alive",
+        "6 (header, element) shape pairs, lengths 0..33, every subset of written slots for lengths <= 4 and seeded subsets above",
+    ]
+
+    def jobs(self, tier, seed):
+        p = ("C15",)
+        j = []
+        if tier == "quick":
+            j += simple_jobs("dbg", ["uninit", "seed=%d" % seed], p, nshards=2)
+            j += simple_jobs("rel", ["uninit", "seed=%d" % (seed + 1)], p)
+            j += simple_jobs("nostd", ["uninit", "seed=%d" % (seed + 2)], p)
+            j += [Job("asan", ["uninit", "seed=%d" % (seed + 3), "shard=%d" % k, "nshards=2", "shadow=0"], san_props=p, crash_props=p,
+                      env={"ASAN_OPTIONS": "detect_leaks=0:halt_on_error=1:exitcode=98"}) for k in range(2)]
+            j += [Job("miri", ["uninit", "seed=%d" % seed, "maxlen=5", "shard=%d" % k, "nshards=12"], san_props=p, crash_props=p, miri_seed=seed * 4096 + k,
+                      tb=(k % 4 == 3), miri_extra="-Zmiri-ignore-leaks", timeout=1800) for k in range(12)]
+        else:
+            for k, m in enumerate(("dbg", "rel", "off", "nostd")):
+                j += [Job(m, ["uninit", "seed=%d" % (seed * 1000 + k * 50 + q), "maxlen=70"], san_props=p, crash_props=p) for q in range(8)]
+            j += [Job("asan", ["uninit", "seed=%d" % (seed + 3), "maxlen=70", "shard=%d" % k, "nshards=8", "shadow=0"], san_props=p, crash_props=p,
+                      env={"ASAN_OPTIONS": "detect_leaks=0:halt_on_error=1:exitcode=98"}) for k in range(8)]
+            j += [Job("memcheck", ["uninit", "seed=%d" % seed, "shadow=0", "shard=%d" % k, "nshards=16"], san_props=p, crash_props=p, timeout=3000,
+                      valgrind_args=["--errors-for-leak-kinds=none"]) for k in range(16)]
+            j += [Job("miri", ["uninit", "seed=%d" % seed, "maxlen=9", "shard=%d" % k, "nshards=64"], san_props=p, crash_props=p, miri_seed=seed * 4096 + k,
+                      tb=(k % 4 == 3), miri_extra="-Zmiri-ignore-leaks", timeout=3000) for k in range(64)]
+        return j
+
+    def coverage(self, counts, sets, samples, other, results):
+        return dict(
+            evaluations=counts.get("uninit.cases", 0),
+            distinct_nontrivial=len(sets.get("uninit_cases", ())),
+            rule="one evaluation = one uninitialised-construction case: (header shape, element shape, length, set of slots written, path) where the path is drop-before-assume_init via "
+                 "Arc::new_uninit_slice / UniqueArc::new_uninit_slice / from_header_and_uninit_slice, write-all + assume_init via each of them, or a deprecated as_mut_slice / Arc::write on a "
+                 "shared and on a sole handle (co-owner Arc, OffsetArc or raw pointer); identity registry decides which destructors ran, the shadow allocator decides block release and layout. "
+                 "distinct_nontrivial = distinct (shapes, length, none/some/all written, path) cases",
+            samples=samples,
+            per_path={k: v for k, v in counts.items() if k.startswith("uninit.s")},
+            allocator_checked_frees=other.get("checked_frees", 0),
+        )
+
+    def required(self, counts, sets, other):
+        return need(counts, ["uninit.slice.path%d" % k for k in range(7)] + ["uninit.sized.path%d" % k for k in range(10)])
+
+
+class C16(Plan):
+    level = "fault_enumeration"
+    assumptions = COMMON_ASSUME + [
+        "the counter is preset through its address learned from the cfg(triomphe_verif) hook (hook-less build: block start, validated differentially before use)",
+        "at exactly isize::MAX either outcome is accepted (the source documents the limit as soft), but a successful clone must add exactly one",
+    ]
+
+    def jobs(self, tier, seed):
+        p = ("C16",)
+        j = [Job(m, ["overflow", "seed=%d" % seed], san_props=p, crash_props=(), timeout=600) for m in ("dbg", "rel", "nostd", "off")]
+        return j
+
+    def coverage(self, counts, sets, samples, other, results):
+        return dict(
+            evaluations=counts.get("overflow.children", 0),
+            distinct_nontrivial=len(sets.get("overflow_cases", ())),
+            rule="exhaustive table: 10 starting counts {1,2,2^31,2^32,isize::MAX-1,isize::MAX,isize::MAX+1,isize::MAX+2,usize::MAX-1,usize::MAX} x 14 clone entry points (Arc<T>, Arc<[T]>, "
+                 "Arc<dyn>, ThinArc, OffsetArc::clone/clone_arc, ArcBorrow::clone_arc, ArcUnion first/second, clone inside ThinArc/OffsetArc/ArcBorrow::with_arc, with_raw_offset_arc, "
+                 "with_arc_mut) x builds {std debug, std release, no_std, hook off}; one evaluation = one child process whose ending (exit 0 with count+1 / death by SIGABRT or SIGILL / "
+                 "caught panic) is classified by the parent. distinct_nontrivial = distinct (entry point, starting count) cells",
+            samples=samples,
+            exhaustive=True,
+            outcomes={k: v for k, v in counts.items() if k.startswith("overflow.")},
+            builds=sorted(set(r.job.mode for r in results)),
+        )
+
+    def required(self, counts, sets, other):
+        return need(counts, ["overflow.aborted", "overflow.cloned"])
+
+
+class C17(Plan):
+    assumptions = COMMON_ASSUME + ["payload family: integers, floats, strings, tuples, sequences, options, maps, hand-written struct / enum / nested struct using is_human_readable; "
+                                   "serde's in-memory value deserializers and scripted seq/map deserializers failing at each access"]
+
+    def jobs(self, tier, seed):
+        p = ("C17",)
+        j = []
+        if tier == "quick":
+            j += simple_jobs("dbg", ["serde", "seed=%d" % seed, "n=40"], p)
+            j += simple_jobs("rel", ["serde", "seed=%d" % (seed + 1), "n=40"], p)
+            j += simple_jobs("asan", ["serde", "seed=%d" % (seed + 2), "n=10"], p)
+            j += [Job("miri", ["serde", "seed=%d" % (seed * 10 + k), "n=1"], san_props=p, crash_props=p, miri_seed=seed * 4096 + k, tb=(k == 1), timeout=1800) for k in range(2)]
+        else:
+            for k, m in enumerate(("dbg", "rel", "off")):
+                j += [Job(m, ["serde", "seed=%d" % (seed * 1000 + k * 50 + q), "n=2000"], san_props=p, crash_props=p) for q in range(8)]
+            j += simple_jobs("asan", ["serde", "seed=%d" % (seed + 2), "n=400"], p)
+            j += [Job("miri", ["serde", "seed=%d" % (seed * 10 + k), "n=2"], san_props=p, crash_props=p, miri_seed=seed * 4096 + k, tb=(k % 3 == 2), timeout=3000) for k in range(16)]
+        return j
+
+    def coverage(self, counts, sets, samples, other, results):
+        return dict(
+            evaluations=counts.get("serde.ser_runs", 0) + counts.get("serde.de_runs", 0),
+            distinct_nontrivial=len(sets.get("serde_cases", ())),
+            rule="one evaluation = one serialisation of (T, Arc<T>, UniqueArc<T>) into a recording serializer with a failure injected at call k (every k, and none), comparing results and "
+                 "call traces; or one deserialisation of (T, Arc<T>, UniqueArc<T>) from the same in-memory or scripted deserializer (failing at access k), comparing values/errors, "
+                 "sole ownership and allocator balance. distinct_nontrivial = distinct (payload type, trace length) and (deserialiser kind, fault point) cases",
+            samples=samples,
+            serializer_calls_compared=counts.get("serde.ser_calls_compared", 0),
+            deserialisations_ok=counts.get("serde.de_ok", 0),
+            deserialisations_err=counts.get("serde.de_err", 0),
+        )
+
+    def required(self, counts, sets, other):
+        return need(counts, ["serde.ser_runs", "serde.de_ok", "serde.de_err"])
+
+
 PLANS = {}
 PLANS["C01"] = C01()
 PLANS["C04"] = C04()
@@ -721,3 +881,7 @@ PLANS["C11"] = C11()
 PLANS["C12"] = C12()
 PLANS["C06"] = C06()
 PLANS["C07"] = C07()
+PLANS["C14"] = C14()
+PLANS["C15"] = C15()
+PLANS["C16"] = C16()
+PLANS["C17"] = C17()
